@@ -5,13 +5,13 @@ package main
 // argument atoms, a constant, or a join of alternatives.
 
 import (
-	"strconv"
-	"regexp"
 	"fmt"
 	"go/constant"
 	"go/token"
 	"go/types"
+	"regexp"
 	"sort"
+	"strconv"
 	"strings"
 
 	"golang.org/x/tools/go/ssa"
@@ -31,17 +31,17 @@ type boundVal struct {
 }
 
 type Prov struct {
-	p        *Program
-	closures map[*ssa.Function]*ssa.MakeClosure // closure fn -> its (unique) MakeClosure
-	visiting map[ssa.Value]bool
-	depth    int
+	p           *Program
+	closures    map[*ssa.Function]*ssa.MakeClosure // closure fn -> its (unique) MakeClosure
+	visiting    map[ssa.Value]bool
+	depth       int
 	CopyIsFresh bool // effect analysis: Copy()/Clone() results are fresh memory, not the argument
-	allocDepth map[ssa.Value]int
-	loadCtx  []ssa.Instruction // the load instruction(s) through which the current value is read
-	expansions map[string]string // atom of a call to a single-expression module helper -> atom of its body
-	reachMemo map[[2]*ssa.BasicBlock]bool
-	tables     [][]string            // see tableOf: rows of local literal tables, as lit{...} atoms
-	tableIDs   map[string]int
+	allocDepth  map[ssa.Value]int
+	loadCtx     []ssa.Instruction // the load instruction(s) through which the current value is read
+	expansions  map[string]string // atom of a call to a single-expression module helper -> atom of its body
+	reachMemo   map[[2]*ssa.BasicBlock]bool
+	tables      [][]string // see tableOf: rows of local literal tables, as lit{...} atoms
+	tableIDs    map[string]int
 	globalConst map[*ssa.Global]*ssa.Const // see constGlobal
 	globalScan  bool
 }
